@@ -50,8 +50,12 @@ CHECKS.update({
                      "cancelled or exiting groups -, start() children, shielded/raising cleanups) under seeded "
                      "schedules and cancel injections. At every group exit: every member task is done, every visible "
                      "TaskHandle is final and its status/return_value/exception equal the interpreter's own record of "
-                     "how that coroutine ended; over the history no member executes a step after its group's exit "
-                     "record. Exploration level."),
+                     "how that coroutine ended (return values include None and exception instances, raised exceptions include "
+                     "falsy ones and BaseExceptions); over the history no member executes a step after its group's exit "
+                     "record. C01 programs also cancel whole tasks natively (Task.cancel() without / with string / with "
+                     "non-string message, repeated, and directed at a group's host while the group is being left, with a "
+                     "child lingering behind a shield); an exception raised inside the library that no statement raises "
+                     "is a violation (C01.error), a program that never ends too. Exploration level."),
     "C02": dict(_sc, ref="4 (Engine SC, C02)",
                 text="Same engine biased to failing children/bodies/cleanups. Per group: identity set of "
                      "non-cancellation leaves raised by the block == exceptions that escaped the body and the members "
@@ -65,13 +69,17 @@ CHECKS.update({
                      "model computes the loop cycles during which the task is blocked while its scope chain is "
                      "effectively cancelled: must be <= 4 (calibrated max 2); operations entered in an effectively "
                      "cancelled chain must raise; deadlock / iteration-cap exhaustion is a violation (programs are "
-                     "terminating by construction). Exploration level."),
+                     "terminating by construction). Scopes also come from move_on_after/move_on_at/fail_after(None)/"
+                     "fail_at(inf) and from deadlines assigned before entry. 1% of the cases are to_thread workloads "
+                     "(engine THREADS) judged by one rule: a caller cancelled while it waits for a limiter token is "
+                     "interrupted. Exploration level."),
     "C04": dict(_sc, ref="4 (Engine SC, C04)",
                 text="Same engine biased to scope trees with shields, toggles and deadline moves. Rules: an operation "
                      "is interrupted only if its chain was effectively cancelled at some instant of the operation; at "
                      "every scope exit reached by a cancellation: absorbed iff own scope cancelled and no cancelled "
                      "enclosing scope visible; cancelled_caught iff absorbed; other exceptions (and non-cancellation "
-                     "leaves of groups) pass through by identity. Exploration level."),
+                     "leaves of groups, including a program's own bare CancelledError inside a group) pass through by "
+                     "identity; the shield flag must hold whichever public constructor made the scope. Exploration level."),
     "C05": dict(_sc, ref="4 (Engine SC, C05)",
                 text="Same engine biased to many deliveries before exit and native asyncio.timeout blocks around/inside "
                      "anyio scopes. Rules: Task.cancelling() (net of pending native timeouts) restored at every scope "
@@ -85,7 +93,8 @@ CHECKS.update({
                      "child task is done, the exception is the child's own (identity) or RuntimeError only if it "
                      "merely returned; errors raised while the caller is being cancelled surface (conservation); a "
                      "child ending before started() does not cancel the group; second started() refused unless the "
-                     "caller was cancelled. Exploration level."),
+                     "caller was cancelled; a start() child is cancelled like any other member of a cancelled group "
+                     "(member_not_cancelled). Exploration level."),
 })
 
 CHECKS["C11"] = dict(engine="sync-conditions", ref="4 (Engine SYNC, C11)",
@@ -95,7 +104,8 @@ CHECKS["C11"] = dict(engine="sync-conditions", ref="4 (Engine SYNC, C11)",
          "cancellable scopes, cancels before / in the same cycle as / after the selecting notification, misuse by "
          "non-holders and earlier holders). A normal return from wait() must be explained by a token in some automaton "
          "state, statistics().tasks_waiting must match (lost / duplicated notifications, phantom waiters), wait() must "
-         "come back holding the lock even when cancelled; Event.wait returns only after set(), within 3 cycles, and "
+         "come back holding the lock even when cancelled (the section is entered by async with, acquire() or "
+         "acquire_nowait(); primitives are also created before the event loop exists); Event.wait returns only after set(), within 3 cycles, and "
          "the event stays set. 30% of the cases also cancel whole waiter tasks natively (Task.cancel()), except while "
          "wait() may be in its shielded lock re-acquisition. Exploration level.")
 
@@ -181,7 +191,8 @@ CHECKS["C17"] = dict(engine="bytes-tls", ref="4 (Engine BYTES, C17)",
     text="Real CPython ssl (TLS 1.2 and 1.3) and real TLSStream on both ends of an in-memory Wire pair. Seeded message-size "
          "sequences (0 bytes to 70 000 / 140 000 bytes, i.e. more than 64 KiB of ciphertext in one flush), receive sizes from 1 byte, "
          "simplex and full-duplex workloads, writers that close at once or stay idle until the peer has read everything, per-direction "
-         "re-chunking from 1-byte fragments to full coalescing, and a fault: truncation at a seeded ciphertext offset (within "
+         "re-chunking from 1-byte fragments to full coalescing, streams created by TLSStream.wrap(), TLSConnectable.connect() or "
+         "TLSListener.serve(), and a fault: truncation at a seeded ciphertext offset (within "
          "the handshake, mid-record, between records, 1..60 bytes before the end) or one flipped bit. Oracles: bytes read are a "
          "prefix of bytes written (equal when clean); 1 <= len(chunk) <= max_bytes; clean close => EndOfStream; truncation => "
          "BrokenResourceError when standard_compatible (also on the receive() calls that follow the first report), EndOfStream otherwise, never the other way round; with a bit flip never "
@@ -192,13 +203,17 @@ CHECKS["C18"] = dict(engine="bytes-sockets", ref="4 (Engine BYTES, C18)",
               "transport) over a simulated kernel with bounded buffers, seeded short reads/writes, spurious EAGAIN, in-flight "
               "delays and readiness order; byte-stream, EOF/close, busy and back-pressure oracles",
     text="TCP-like ends (real StreamProtocol + SocketStream on the real _SelectorSocketTransport) and UNIX-like ends (real "
-         "UNIXSocketStream on the raw socket) in all four pairings over SimSockets with 1..4096-byte kernel buffers. Both ends "
+         "UNIXSocketStream on the raw socket; also built through AsyncIOBackend.wrap_stream_socket and through the public "
+         "SocketStream.from_socket() / UNIXSocketStream.from_socket() constructors from a socket object in blocking mode) "
+         "in all pairings over SimSockets with 1..4096-byte kernel buffers. Both ends "
          "write (1..5000-byte messages) and read (max_bytes from 1, pauses so that buffers fill and writers block) at once; ends "
          "by send_eof and/or close; probes for a second concurrent user of a direction, use after local close and closing while "
          "the own reader is blocked. Oracles: received bytes == sent bytes in order (prefix if the writer was cut off by the "
          "peer's close), 1 <= len(chunk) <= max_bytes, EOF only after everything sent, ClosedResourceError after local close "
          "within 4 loop cycles (never blocking), BusyResourceError for the second user, send() returns with an empty user-space "
-         "write buffer (back-pressure), no deadlock / busy loop. Exploration level.")
+         "write buffer (back-pressure), the transport is paused between receive() calls (receive-side back-pressure), a peer "
+         "that stays connected and silent after its last send still gets everything across, receive() after EndOfStream neither "
+         "blocks nor returns data, no would-block call on a socket left in blocking mode, no deadlock / busy loop. Exploration level.")
 
 CHECKS["C14"] = dict(engine="threads-to_thread", ref="4 (Engine THREADS, C14)",
     technique="deterministic simulation of real threads: baton-passing scheduler (one managed thread runs at a time, seeded "
@@ -226,7 +241,8 @@ CHECKS["C15"] = dict(engine="threads-portal", ref="4 (Engine THREADS, C15)",
          "parked' as a hung call. 1-4 caller threads x 1-5 operations (call, start_task_soon with immediate/late future.cancel, "
          "start_task with started / failure / no started, a callable ending with a cancellation of its own, "
          "wrap_async_context_manager, stop with/without cancel_remaining, graceful then forced stop), portal "
-         "inline in anyio.run or in its own thread, main thread leaving early or with an exception. Oracles: every callable runs "
+         "inline in anyio.run or in its own thread, main thread leaving early or with an exception; values that are exception "
+         "instances; callables raising a non-Exception BaseException (the caller must get it). Oracles: every callable runs "
          "in the loop thread exactly once (0 only if refused or cancelled before it started), value / exception / start value "
          "identity, cancelling a future interrupts exactly that task, calls issued after stop() returned are refused, leaving the "
          "context returns only when no portal task is running, the portal's own task group never fails (portal_crashed), nobody "
